@@ -1,18 +1,25 @@
 #!/usr/bin/env python3
-"""Development aid for generator `fix:` commits: regenerates /repo/testobj_ins and /repo/testdata with the
-CURRENT /repo generator (package target, exactly how the shipped files were produced) and copies them in place.
-Not used by any check."""
-import os, shutil, sys
+"""Development aid for generator `fix:` commits: regenerates <repo>/testobj_ins and <repo>/testdata with the
+CURRENT generator of that tree (package target, exactly how the shipped files were produced) and copies them in
+place. Builds only the generator driver (`gengram -phase targets`), not the whole preparation. Not used by any check."""
+import os, shutil, sys, tempfile
 sys.path.insert(0, os.path.dirname(os.path.abspath(__file__)))
 import vlib
-prep = vlib.prepare("quick")
-src = os.path.join(prep["genmod"], "targets", "A", "gopath", "src")
-n = 0
-for f in sorted(os.listdir(os.path.join(src, "pkgout"))):
-    if f.endswith("_ins.go"):
-        shutil.copy(os.path.join(src, "pkgout", f), os.path.join(vlib.REPO, "testobj_ins", f)); n += 1
-m = 0
-for f in sorted(os.listdir(os.path.join(src, "pkgxml"))):
-    if f.endswith(".xml"):
-        shutil.copy(os.path.join(src, "pkgxml", f), os.path.join(vlib.REPO, "testdata", f)); m += 1
-print("copied %d inspector files and %d xml dumps" % (n, m))
+wd = tempfile.mkdtemp(prefix="regen_shipped_")
+try:
+    exe = os.path.join(wd, "gengram")
+    vlib.harness_build(wd, exe, "./cmd/gengram")
+    root = os.path.join(wd, "root")
+    os.makedirs(root)
+    p = vlib.run([exe, "-root", root, "-phase", "targets", "-run", "A"], cwd=wd, check=False)
+    src = os.path.join(root, "targets", "A", "gopath", "src")
+    n = m = 0
+    for f in sorted(os.listdir(os.path.join(src, "pkgout"))):
+        if f.endswith("_ins.go"):
+            shutil.copy(os.path.join(src, "pkgout", f), os.path.join(vlib.REPO, "testobj_ins", f)); n += 1
+    for f in sorted(os.listdir(os.path.join(src, "pkgxml"))):
+        if f.endswith(".xml"):
+            shutil.copy(os.path.join(src, "pkgxml", f), os.path.join(vlib.REPO, "testdata", f)); m += 1
+    print("copied %d inspector files and %d xml dumps" % (n, m))
+finally:
+    shutil.rmtree(wd, ignore_errors=True)
